@@ -572,3 +572,76 @@ func derivesFromCall(v ssa.Value, name string, idx int) bool {
 	}
 	return rec(v)
 }
+
+// MLoop is a `for k, v := range map` loop (rangeiter.loop/body).
+type MLoop struct {
+	Header *ssa.BasicBlock
+	Body   *ssa.BasicBlock
+	X      ssa.Value
+	Blocks map[*ssa.BasicBlock]bool
+}
+
+func mapRangeLoops(fn *ssa.Function) []*MLoop {
+	var out []*MLoop
+	for _, h := range fn.Blocks {
+		if h.Comment != "rangeiter.loop" || len(h.Succs) != 2 {
+			continue
+		}
+		l := &MLoop{Header: h, Body: h.Succs[0], Blocks: map[*ssa.BasicBlock]bool{}}
+		for _, in := range h.Instrs {
+			if nx, ok := in.(*ssa.Next); ok {
+				if rg, ok := nx.Iter.(*ssa.Range); ok {
+					l.X = rg.X
+				}
+			}
+		}
+		st := []*ssa.BasicBlock{l.Body}
+		for len(st) > 0 {
+			x := st[len(st)-1]
+			st = st[:len(st)-1]
+			if x == h || l.Blocks[x] {
+				continue
+			}
+			l.Blocks[x] = true
+			st = append(st, x.Succs...)
+		}
+		out = append(out, l)
+	}
+	return out
+}
+
+// phiLeaves expands phis (and single-store locals) into the set of non-phi values merged.
+func phiLeaves(v ssa.Value) []ssa.Value {
+	seen := map[ssa.Value]bool{}
+	var out []ssa.Value
+	var rec func(v ssa.Value)
+	rec = func(v ssa.Value) {
+		if seen[v] {
+			return
+		}
+		seen[v] = true
+		switch x := v.(type) {
+		case *ssa.Phi:
+			for _, e := range x.Edges {
+				rec(e)
+			}
+			return
+		case *ssa.UnOp:
+			if al, ok := x.X.(*ssa.Alloc); ok && x.Op == token.MUL {
+				n := 0
+				for _, r := range *al.Referrers() {
+					if st, ok := r.(*ssa.Store); ok && st.Addr == al {
+						rec(st.Val)
+						n++
+					}
+				}
+				if n > 0 {
+					return
+				}
+			}
+		}
+		out = append(out, v)
+	}
+	rec(v)
+	return out
+}
